@@ -81,12 +81,12 @@ def check_case(case, res=None):
         rendered = spec.render_tree(tree)
         # the same documents spelled differently (line ends, XML comments, attribute order and quotes, <x></x>,
         # byte order mark, no declaration), next to files a checkout of the protocol also holds
-        style = (case.get("walk_seed", 1) * 7 + case.get("walk_seed2", 1)) % 128
+        style = (case.get("walk_seed", 1) * 7 + case.get("walk_seed2", 1)) % 512
         for n_, rel in enumerate(reversed(list(rendered))):
             p = os.path.join(xml_b, rel)
             os.makedirs(os.path.dirname(p), exist_ok=True)
-            with open(p, "w", encoding="utf-8", newline="") as f:
-                f.write(spec.restyle(rendered[rel], (style + 37 * n_) % 128))
+            with open(p, "wb") as f:
+                f.write(spec.restyle(rendered[rel], (style + 37 * n_) % 512))
             for extra, text in (("protocol.xsd", '<?xml version="1.0"?>\n<schema><enum name="NotAType"/></schema>\n'),
                                 ("protocol.xml.orig", "<protocol><struct name="), ("README.md", "# notes\n")):
                 if (n_ + len(extra)) % 2:
@@ -156,7 +156,8 @@ def check_case(case, res=None):
             env.update(LC_ALL="C", LANG="C", PYTHONUTF8="0", PYTHONCOERCECLOCALE="0")
             env.pop("PYTHONIOENCODING", None)
         r = subprocess.run([PY, "-B", os.path.join(VERIF, "vlib", "sub_gen.py"), REPO, pkg.xml_root, out_c,
-                            "-2", "0"], env=env, capture_output=True, text=True)   # descending walk order
+                            "-2", "0", str(case.get("hashseed", 1) % 4)],      # descending walk order; path spelling
+                           env=env, capture_output=True, text=True)
         try:
             jr = json.loads(r.stdout.strip().splitlines()[-1])
         except Exception:
